@@ -979,3 +979,72 @@ def version_info_cases(r, d):
                 if off + L < len(d):
                     out.append(("X%d:%s" % (off, (b"#" + b"A" * (L - 1)).hex()), "dotnet-stream-name"))
     return out
+
+
+# ---------------------------------------------------------------------------------------------------------------------
+# Cycles and self-references in index-linked structures (termination is part of C06)
+def cycle_cases(r, d):
+    out = []
+    T = dotnet_tables(d)
+    if T:
+        nc = T.get("NestedClass")
+        if nc and nc["rows"] >= 1:
+            (c0, w0, _), (c1, w1, _) = nc["cols"][0], nc["cols"][1]
+            rows = []
+            for i in range(min(nc["rows"], 10)):
+                ro = nc["off"] + i * nc["size"]
+                rows.append((ro, _rd(d, ro + c0, w0), _rd(d, ro + c1, w1)))
+            def setenc(i, v): return "W%d:%d:%x" % (rows[i][0] + c1, w1, v)
+            def setnest(i, v): return "W%d:%d:%x" % (rows[i][0] + c0, w0, v)
+            for i in range(len(rows)):
+                out.append((setenc(i, rows[i][1]), "cycle:NestedClass-self"))
+                for j in range(len(rows)):
+                    if i == j: continue
+                    out.append((setenc(i, rows[j][1]), "cycle:NestedClass-1edit"))                                  # enclosed by another nested type (closes a cycle when j's chain leads back)
+                    if i < j:
+                        out.append((setenc(i, rows[j][1]) + "," + setenc(j, rows[i][1]), "cycle:NestedClass-2"))      # A in B, B in A
+                        out.append((setnest(j, rows[i][2]) + "," + setenc(j, rows[i][1]), "cycle:NestedClass-2"))     # row j := (enclosing_i, nested_i)
+                    for k in range(len(rows)):
+                        if len({i, j, k}) == 3 and i < j < k and len(out) < 400:
+                            out.append((",".join([setenc(i, rows[j][1]), setenc(j, rows[k][1]), setenc(k, rows[i][1])]), "cycle:NestedClass-3"))
+        td = T.get("TypeDef")
+        if td and td["rows"] >= 2:
+            ext = [c for c in td["cols"] if c[2] == "C:TypeDefOrRef"]
+            if ext:
+                co, w, _ = ext[0]
+                n = td["rows"]
+                for i in sorted({0, 1, n // 2, n - 1}):
+                    ro = td["off"] + i * td["size"]
+                    out.append(("W%d:%d:%x" % (ro + co, w, ((i + 1) << 2)), "cycle:TypeDef.Extends-self"))
+                    j = (i + 1) % n
+                    rj = td["off"] + j * td["size"]
+                    out.append(("W%d:%d:%x,W%d:%d:%x" % (ro + co, w, ((j + 1) << 2), rj + co, w, ((i + 1) << 2)), "cycle:TypeDef.Extends-2"))
+        for name, a, b in (("InterfaceImpl", 0, 1), ("GenericParamConstraint", 0, 1), ("MethodImpl", 1, 2)):
+            t = T.get(name)
+            if t and t["rows"] >= 1:
+                ro = t["off"]
+                (ca, wa, _), (cb, wb, _) = t["cols"][a], t["cols"][b]
+                va = _rd(d, ro + ca, wa) or 0
+                out.append(("W%d:%d:%x" % (ro + cb, wb, va), "cycle:%s-self" % name))
+    pe = PEInfo(d)
+    if pe.ok and len(pe.dirs) > 2 and pe.dirs[2][0]:
+        rs = pe.off(pe.dirs[2][0])
+        n = len(d)
+        if rs is not None:
+            dirs = [(rs, None)]
+            seen = 0
+            while dirs and seen < 12:
+                o, parent = dirs.pop(0)
+                if o + 16 > n: continue
+                cnt = (u16(d, o + 12) or 0) + (u16(d, o + 14) or 0)
+                for k in range(min(cnt, 8)):
+                    eo = o + 16 + 8 * k
+                    if eo + 8 > n: break
+                    v = u32(d, eo + 4)
+                    seen += 1
+                    out.append(("W%d:4:%x" % (eo + 4, 0x80000000 | (o - rs)), "cycle:resource-dir-self"))
+                    out.append(("W%d:4:%x" % (eo + 4, 0x80000000), "cycle:resource-dir-root"))
+                    if parent is not None:
+                        out.append(("W%d:4:%x" % (eo + 4, 0x80000000 | (parent - rs)), "cycle:resource-dir-parent"))
+                    if v & 0x80000000: dirs.append((rs + (v & 0x7fffffff), o))
+    return out
